@@ -615,6 +615,8 @@ func init() {
 		} else {
 			sb.WriteString(untranslatable("buildBatcher"))
 		}
+		// function level: GlobExpand's loop body, walkRoot, isDir, openFileToReader (c06fn.go)
+		sb.WriteString(c.c06Functions())
 		sb.WriteString("end Rare.Gen.C06\n")
 		return sb.String()
 	})
